@@ -14,7 +14,17 @@ let show_msg (raw : M.byte list) : string =
 
 let lower s = String.lowercase_ascii s
 
-let eval case impl =
+let rec eval case impl =
+  (* `<case> ## <case>`: messages printed one after the other on one thread; the earlier ones (whose writers may fail) are
+     history only: the LAST message is judged, on its own *)
+  match Str.split (Str.regexp_string " ## ") case, Str.split (Str.regexp_string " ## ") impl with
+  | (_ :: _ :: _ as cs), is when List.length cs = List.length is ->
+    let last l = List.nth l (List.length l - 1) in
+    let (m, fails) = eval (last cs) (last is) in
+    let prefix = String.concat " ## " (List.filteri (fun i _ -> i < List.length is - 1) is) in
+    (prefix ^ " ## " ^ m, fails)
+  | (_ :: _ :: _), _ -> ("?", [("C08", "-")])
+  | _ ->
   match split_on ' ' case with
   | [ep; code; reason; dflag; fields; pieces; acc] ->
     let code_i = int_of_string code in
@@ -44,7 +54,7 @@ let eval case impl =
       | "R" -> M.write_response (n_of_int code_i) reason_b h date0 ps accn
       | _ -> M.write_request (bytes_of_string "PUT") (bytes_of_string "/t") h date0 ps accn in
     let (mraw, mst) = match res with M.WOk o -> (o, "ok") | M.WErr o -> (o, "err") in
-    let (iraw, ist) = match split_on ' ' impl with [a; b] -> (bytes_of_hex a, b) | _ -> ([], "?") in
+    let (iraw, ist) = match split_on ' ' impl with [a; b] -> ((if a = "-" then [] else bytes_of_hex a), b) | _ -> ([], "?") in
     (* compare at the level the property observes: the decoded message *)
     let model = show_msg mraw ^ " " ^ mst in
     let icanon = show_msg iraw ^ " " ^ ist in
